@@ -243,29 +243,19 @@ theorem counterexample_float_int :
   rw [h, e1] at e2
   cases e2
 
-/-- finding `none-attribute-hash:set-of-structures`: trusted instances keep a null as an attribute
-    holding None, which `Structure.__hash__` (= hash of `str(self)`) sees but `Structure.__eq__` does
-    not (`PyVal.pyEq` reads an attribute holding None like an absent one): the two elements the
-    trusted path builds are `==` and spelled differently (CPython's set, which buckets by hash, keeps
-    both; the model's sets are keyed by `==` alone and cannot show the two buckets), while the
-    regular path builds two identically spelled elements -/
+/-- fixed `none-attribute-hash:set-of-structures` (c4803f1: equal structures have equal hashes): the
+    trusted instances that keep a null as an attribute holding None are `==` to the ones without it
+    AND hash alike, so `Set[Foo]` collapses them on the trusted path as on the regular path -/
 def fooOpt : FieldDecl := mkCls "Foo" [] [("a", .integer {}), ("b", .integer {})]
 def cxSetStruct : FieldDecl := mkCls "A" ["m"] [("m", .setOf false fooOpt {})]
 def cxSetStructDoc : PyVal :=
   .dict [(.str "m", .list [.dict [(.str "a", .int 1)], .dict [(.str "a", .int 1), (.str "b", .none)]])]
-theorem counterexample_set_of_structures :
+theorem fixed_set_of_structures :
     eligible noMappers cxSetStruct = true
-    ∧ (match deserialize exO {} cxSetStruct cxSetStructDoc with
-        | .ok (.inst _ [(_, .set _ xs)]) => xs.length == 1
-        | _ => false) = true
-    ∧ (match deserialize exO {} fooOpt (.dict [(.str "a", .int 1)]),
-             deserialize exO {} fooOpt (.dict [(.str "a", .int 1), (.str "b", .none)]) with
-        | .ok (.inst _ a1), .ok (.inst _ a2) => a1.length == a2.length
-        | _, _ => false) = true
-    ∧ (match deserializeTrusted noMappers exO {} fooOpt (.dict [(.str "a", .int 1)]),
-             deserializeTrusted noMappers exO {} fooOpt (.dict [(.str "a", .int 1), (.str "b", .none)]) with
-        | .ok (.inst c1 a1), .ok (.inst c2 a2) =>
-            PyVal.pyEq (.inst c1 a1) (.inst c2 a2) && a1.length == 1 && a2.length == 2
+    ∧ (match deserialize exO {} cxSetStruct cxSetStructDoc,
+             deserializeTrusted noMappers exO {} cxSetStruct cxSetStructDoc with
+        | .ok (.inst cx [(nx, .set fx xs)]), .ok (.inst cy [(ny, .set fy ys)]) =>
+            xs.length == 1 && ys.length == 1 && eqv (.inst cx [(nx, .set fx xs)]) (.inst cy [(ny, .set fy ys)])
         | _, _ => false) = true := by
   decide
 
